@@ -68,6 +68,8 @@ class Coll:
         c.bin_extra = {k: v.copy() for k, v in self.bin_extra.items()}
         c.pixels = self.pixels.copy()
         c.metadata = copy.deepcopy(self.metadata)
+        if hasattr(self, "approx_cols"):
+            c.approx_cols = set(self.approx_cols)
         if hasattr(self, "dtype_alternatives"):
             c.dtype_alternatives = {k: set(v) for k, v in self.dtype_alternatives.items()}
         return c
@@ -168,6 +170,11 @@ def aggregate(frames, columns, agg=None):
                 res.append(min(vs))
             elif how == "first":
                 res.append(vs[0])
+            elif how == "count":
+                res.append(len(vs))
+            elif how in ("np.std", "np.var"):
+                # a NumPy callable is applied as it is: population statistics (ddof = 0)
+                res.append(float(getattr(np, how[3:])(np.asarray(vs, dtype=float))))
             else:  # pragma: no cover
                 raise ValueError(how)
         out[col] = res
@@ -225,6 +232,8 @@ def coarsen_model(coll, k, columns=None, agg=None, dtypes=None):
     new = Coll(coll.chromnames, coll.lengths, frame, pixel_frame(out, dts) if ok else
                pixel_frame({"bin1_id": [], "bin2_id": [], **{c: [] for c in columns}}, dts),
                coll.symmetric)
+    new.approx_cols = {c for c in columns if str((agg or {}).get(c, "")).startswith("np.")} | \
+        (set(getattr(coll, "approx_cols", ())) & set(columns))
     return new, ok
 
 
